@@ -407,6 +407,7 @@ func C05() *engine.Check {
 		Subs: []*engine.Sub{
 			c05Sub(3, 5),
 			c05PolicySub(),
+			longChainSub("C05"),
 			c01Sub("principal-universe-completeness", "complete", 3, 4),
 			c01SealedSub("sealed-tokens-through-container-completeness", "complete", 2, 3),
 			c02Sub("command-universe-completeness", "complete", 4, 6),
@@ -415,6 +416,8 @@ func C05() *engine.Check {
 			c03SeqSub("same-token-sequences-completeness", "complete"),
 			c04ChainSub("time-universe-completeness", "complete", 3, 5),
 			c04RealSub("real-clock-completeness", "complete", 3, 6),
+			c04RealSubZ("real-clock-zone-west-completeness", "complete", 2, 3, time.FixedZone("verif-west", -11*3600), 2*time.Hour),
+			c04RealSubZ("real-clock-zone-east-completeness", "complete", 2, 3, time.FixedZone("verif-east", 13*3600+1800), 2*time.Hour),
 		},
 		Assumptions: []string{
 			"the completeness direction of the C01-C04 universes is charged here: whenever the reference says no rule is violated the implementation must allow",
